@@ -583,6 +583,31 @@ def cls_fp(cls):
 
 # ------------------------------------------------------------------ hand-built classes: ext field kinds, defaults
 
+_USER_FIELDS = {}
+
+
+def _user_fields():
+    """USER-DEFINED field classes whose `serialize` passes the value through (already JSON-like content): a
+    SerializableField over a dict, one over a list, and a plain Field subclass — with mutable defaults these are the
+    fields for which nothing but typedpy's own copy stands between the class default and an exported schema"""
+    if _USER_FIELDS:
+        return _USER_FIELDS
+    import typedpy as T
+
+    def make(name, base, py, schema):
+        def __set__(self, instance, value):
+            if not isinstance(value, py):
+                raise TypeError(f"{self._name}: Expected {py.__name__}")
+            base.__set__(self, instance, copy.deepcopy(value))
+        body = {"__set__": __set__, "serialize": lambda self, value: value, "deserialize": lambda self, value: value,
+                "to_json_schema": lambda self: copy.deepcopy(schema)}
+        return type(name, (base,), body)
+    _USER_FIELDS["UserSerDict"] = make("UserSerDict", T.SerializableField, dict, {"type": "object"})
+    _USER_FIELDS["UserSerList"] = make("UserSerList", T.SerializableField, list, {"type": "array"})
+    _USER_FIELDS["UserPlainField"] = make("UserPlainField", T.Field, dict, {"type": "object"})
+    return _USER_FIELDS
+
+
 def _ext_kinds():
     import datetime
     import decimal
@@ -596,6 +621,9 @@ def _ext_kinds():
         "JSONString": (T.JSONString, '{"a": 1}'), "String": (T.String, "s"), "Integer": (T.Integer, 3),
         "Array": (arr, [1, 2]), "Map": (T.Map, {"k": [1]}), "Set": (T.Set, {1, 2}),
         "Enum": (lambda **k: T.Enum(values=["S", "M", "L"], **k), "S"),
+        "UserSerDict": (_user_fields()["UserSerDict"], {"env": "prod", "tags": ["a", "b"]}),
+        "UserSerList": (_user_fields()["UserSerList"], [1, {"k": [2]}]),
+        "UserPlainField": (_user_fields()["UserPlainField"], {"k": {"z": [1]}}),
     }
 
 
@@ -1755,7 +1783,8 @@ def directed_cases():
     # schema stream over the ext field kinds, with and without defaults (plain value, callable), sibling class
     # over the same kinds re-exported before/after; history "export a class with defaulted fields, then another"
     kinds = ["IPV4", "HostName", "EmailAddress", "DateString", "TimeString", "DateField", "DecimalNumber",
-             "JSONString", "String", "Integer", "Array", "Map", "Set", "Enum"]
+             "JSONString", "String", "Integer", "Array", "Map", "Set", "Enum",
+             "UserSerDict", "UserSerList", "UserPlainField", "Integer", "String"]
     n = 0
     for dmode in ("none", "plain", "callable"):
         for i in range(0, len(kinds), 5):
